@@ -29,6 +29,8 @@ PROP = "C10"
 TEMPLATE = "{year}{month}{day}_{hour}{minute}-{end_hour}{end_minute}.dat"
 BASE = dt.datetime(2020, 1, 1)
 KINDS_LAZY = ("imap", "icollect")
+UARGS = ["A"]            # ONE list object handed to map(args=…): the wrapper must copy it per task
+UKWARGS = {"k": 1}
 
 
 def tmin(m):
@@ -41,16 +43,16 @@ class Scratch:
         self.root = root
         self.sets = {}
 
-    def fileset(self, name, spans, max_threads=None):
+    def fileset(self, name, spans, max_threads=None, max_processes=None, worker_type=None):
         """FileSet `name` with one file per (start_minute, end_minute); cached"""
         from typhon.files import FileSet, FileHandler
-        key = (name, tuple(spans), max_threads)
+        key = (name, tuple(spans), max_threads, max_processes, worker_type)
         if key in self.sets:
             return self.sets[key]
         d = os.path.join(self.root, f"k{len(self.sets)}", name)
         os.makedirs(d)
-        fs = FileSet(os.path.join(d, TEMPLATE), name=name, handler=FileHandler(reader=cw.reader),
-                     max_threads=max_threads)
+        fs = FileSet(os.path.join(d, TEMPLATE), name=name, handler=FileHandler(reader=cw.reader, writer=cw.writer),
+                     max_threads=max_threads, max_processes=max_processes, worker_type=worker_type)
         ids = {}
         for i, (a, b) in enumerate(spans):
             p = fs.get_filename((tmin(a), tmin(b)))
@@ -153,8 +155,10 @@ def model_line(case):
     k = case["kind"]
     op = {"imap": "imap", "icollect": "imap", "map": "map", "collect": "collect"}[k]
     files = " ".join(("b" + ",".join(map(str, t))) if case.get("bundle") else f"s{t[0]}" for t in tasks_of(case))
-    rd = " ".join({"o": f"o{1000 + i}", "n": "n", "f": "f"}[c] for i, c in enumerate(case["rb"]))
-    return f"{op} {case['w']} {''.join(map(str, cfg))} | {files} | {rd} | {fb} | " + (" ".join(map(str, case["perm"])) or "-")
+    tag = 100000 * case.get("tag", 0)
+    rd = " ".join({"o": f"o{1000 + i + tag}", "n": "n", "f": "f"}[c] for i, c in enumerate(case["rb"]))
+    ua = " UA;k=1" if case.get("ua") else ""
+    return f"{op} {case['w']} {''.join(map(str, cfg))}{ua} | {files} | {rd} | {fb} | " + (" ".join(map(str, case["perm"])) or "-")
 
 
 def render_content(c):
@@ -169,6 +173,8 @@ def oracle(case):
     single = not case.get("bundle")
     per = []
     writes = {}
+    tag = 100000 * case.get("tag", 0)
+    upre, usuf = ("UA", "Kk=1") if case.get("ua") else ("", "")
     for files in tasks_of(case):
         info_r = f"s{files[0]}" if single else "b" + ",".join(map(str, files))
         head = info_r if ri else "-"
@@ -178,8 +184,8 @@ def oracle(case):
             if bad:
                 per.append(("ok", head + "/N", True) if ew else ("err", f"read:{bad[0]}"))
                 continue
-            content = (None if rb[files[0]] == "n" else 1000 + files[0]) if single \
-                else [1000 + f for f in files if rb[f] == "o"]
+            content = (None if rb[files[0]] == "n" else 1000 + files[0] + tag) if single \
+                else [1000 + f + tag for f in files if rb[f] == "o"]
         if fb == "P":
             per.append(("ok", head + "/" + ("N" if content is None else "V" + render_content(content)), False))
             continue
@@ -189,7 +195,8 @@ def oracle(case):
             text, key = "C" + render_content(content) + "I" + info_r, files[0]
         else:
             text = "C" + render_content(content)
-            key = content - 1000 if isinstance(content, int) else (content[0] - 1000 if content else None)
+            key = (content - 1000) % 100000 if isinstance(content, int) else ((content[0] - 1000) % 100000 if content else None)
+        text = upre + text + usuf
         beh = fb[key] if key is not None and 0 <= key < len(fb) else "v"
         if beh == "n":
             per.append(("ok", head + ("/F0" if out else "/N"), False))
@@ -236,13 +243,42 @@ def canon_exc(e):
     return f"other:{type(e).__name__}:{msg[:80]}"
 
 
+def count_read_warnings(wl):
+    """RuntimeWarnings issued from typhon/files/fileset.py (the only one in the mapped code path
+    is the read-error warning of _call_map_function); the wording is not part of the property"""
+    return sum(1 for x in wl if issubclass(x.category, RuntimeWarning)
+               and os.path.basename(str(x.filename)) == "fileset.py")
+
+
+def generator_cache_keys(gen):
+    """ids of the secondaries currently held by align's cache, read from the suspended generator
+    frame; None when the introspection is not possible (renamed local, other python) — a
+    harness introspection failure is never an observation about the code"""
+    try:
+        loc = gen.gi_frame.f_locals
+        cand = loc.get("cache")
+        if not isinstance(cand, dict):
+            dicts = [v for k, v in loc.items() if type(v) is dict and all(hasattr(x, "path") for x in v)]
+            if len(dicts) != 1:
+                return None
+            cand = dicts[0]
+        return sorted(cw.file_id(k) for k in cand)
+    except Exception:           # noqa
+        return None
+
+
 class Rec:
     """counts pool.submit calls of the main thread and consumed items"""
     def __init__(self):
         self.submitted = 0
         self.consumed = 0
         self.maxout = 0
+        self.pools = []                  # (kind, max_workers) of the pools created by the main thread
         self.main = threading.main_thread()
+
+    def on_pool(self, kind, max_workers):
+        if threading.current_thread() is self.main:
+            self.pools.append([kind, max_workers])
 
     def on_submit(self):
         if threading.current_thread() is self.main:
@@ -251,7 +287,7 @@ class Rec:
 
 
 REC = Rec()
-STALLS = {"n": 0}
+STALLS = {"n": 0, "confirmed": 0, "flaky": 0}
 
 
 def stall_timeout(wt):
@@ -271,11 +307,19 @@ def patched_pools():
     from concurrent.futures import ThreadPoolExecutor, ProcessPoolExecutor
 
     class RecTPE(ThreadPoolExecutor):
+        def __init__(self, max_workers=None, *a, **k):
+            REC.on_pool("thread", max_workers)
+            super().__init__(max_workers, *a, **k)
+
         def submit(self, fn, *a, **k):
             REC.on_submit()
             return super().submit(fn, *a, **k)
 
     class RecPPE(ProcessPoolExecutor):
+        def __init__(self, max_workers=None, *a, **k):
+            REC.on_pool("process", max_workers)
+            super().__init__(max_workers, *a, **k)
+
         def submit(self, fn, *a, **k):
             REC.on_submit()
             return super().submit(fn, *a, **k)
@@ -307,11 +351,14 @@ def controller(ctl, order, timeout, state, armed_at=None):
     ctl.open_all()
 
 
-def run_real(sc, case):
-    """drive the real code on one case; returns the observation dict"""
+def run_real(sc, case, patience=None):
+    """drive the real code on one case; returns the observation dict.
+    Optional case fields for the defaults of FileSet: fs (constructor arguments max_threads /
+    max_processes / worker_type), now (do not pass max_workers), nowt (do not pass worker_type),
+    wnone (fileset.max_threads = None -> imap counts one worker), outstr (output= given as path)"""
     global REC
     n = case["n"]
-    fs, ids, infos = sc.fileset("a", [(2 * i, 2 * i + 1) for i in range(n)])
+    fs, ids, infos = sc.fileset("a", [(2 * i, 2 * i + 1) for i in range(n)], **case.get("fs", {}))
     tasks = tasks_of(case)
     cfg, fb = model_cfg(case)
     oc = cfg[0]
@@ -324,7 +371,9 @@ def run_real(sc, case):
                  name="a", ids=ids)
     cw.CTL["a"] = ctl
     REC = Rec()
-    kw = {"max_workers": case["w"]}
+    kw = {} if case.get("now") else {"max_workers": case["w"]}
+    if case.get("tag"):
+        kw["read_args"] = {"tag": case["tag"]}
     mode = case.get("mode", "all")
     if mode == "range":
         kw["start"], kw["end"] = tmin(2 * case["sel"][0]), tmin(2 * case["sel"][-1] + 1.5)
@@ -337,10 +386,15 @@ def run_real(sc, case):
     if cfg[4]:
         from typhon.files import FileSet, FileHandler
         outdir = tempfile.mkdtemp(dir=sc.root, prefix="out")
-        kw["output"] = FileSet(os.path.join(outdir, TEMPLATE), name="out", handler=FileHandler(writer=cw.writer))
+        kw["output"] = os.path.join(outdir, TEMPLATE) if case.get("outstr") else \
+            FileSet(os.path.join(outdir, TEMPLATE), name="out", handler=FileHandler(writer=cw.writer))
     if kind in ("imap", "map"):
         kw.update(on_content=bool(cfg[0]), pass_info=bool(cfg[1]), return_info=bool(cfg[2]),
-                  error_to_warning=bool(cfg[3]), worker_type=wt)
+                  error_to_warning=bool(cfg[3]))
+        if not case.get("nowt"):
+            kw["worker_type"] = wt
+        if case.get("ua"):
+            kw.update(args=UARGS, kwargs=UKWARGS)
         call = (lambda: fs.imap(cw.func, **kw)) if kind == "imap" else (lambda: fs.map(cw.func, **kw))
     elif kind == "icollect":
         kw.update(return_info=bool(case["ri"]), error_to_warning=bool(case["ew"]))
@@ -361,11 +415,14 @@ def run_real(sc, case):
             pos = max(order.index(i) for i in range(k0 + 1))
             armed_at = pos            # release up to (excluding) the event that arms the exception
     state = {"released": [], "stall": None}
-    ctrl = threading.Thread(target=controller, args=(ctl, order, stall_timeout(wt), state, armed_at),
+    ctrl = threading.Thread(target=controller, args=(ctl, order, patience or stall_timeout(wt), state, armed_at),
                             daemon=True)
     obs = {"items": [], "exc": None, "order": order}
     has_info = bool(cfg[2]) if kind != "collect" else False
     t0 = time.time()
+    old_mt = fs.max_threads
+    if case.get("wnone"):
+        fs.max_threads = None
     with patched_pools(), warnings.catch_warnings(record=True) as wl:
         warnings.simplefilter("always")
         ctrl.start()
@@ -390,8 +447,8 @@ def run_real(sc, case):
         finally:
             ctl.open_all()
             ctrl.join(30)
-        obs["warn"] = sum(1 for x in wl if issubclass(x.category, RuntimeWarning)
-                          and str(x.message).startswith("[ERROR] Could not read"))
+            fs.max_threads = old_mt
+        obs["warn"] = count_read_warnings(wl)
     if kind != "collect":
         items = []
         for it in obs["items"]:
@@ -406,6 +463,10 @@ def run_real(sc, case):
         obs["items"] = items
     if state["stall"] is not None:
         STALLS["n"] += 1
+    if UARGS != ["A"] or UKWARGS != {"k": 1}:
+        obs["exc"] = (obs["exc"] or "") + f"|user-args-mutated:{UARGS}"
+        UARGS[:] = ["A"]
+    obs["pools"] = REC.pools
     obs.update(maxout=REC.maxout, submitted=REC.submitted, released=state["released"], stall=state["stall"],
                reads=collections.Counter(ctl.read_log()), wall=time.time() - t0)
     if gdir:
@@ -436,6 +497,19 @@ def classify(case, what):
 def check_case(ck, sc, case, model_out=None):
     """real run + oracle (+ model comparison when model_out is given)"""
     obs, exp = run_real(sc, case)
+    if obs["stall"] is not None and STALLS["confirmed"] < 3:
+        # a task did not start in time: host load or a real deviation?  run the case once more
+        # with a long patience; only a stall that repeats is an observation about the code
+        obs2, _ = run_real(sc, case, patience=15.0 if case.get("wt") != "process" else 40.0)
+        if obs2["stall"] is None:
+            STALLS["flaky"] += 1
+            ck.count("stall-not-repeated(host-load)")
+            obs = obs2
+            if STALLS["flaky"] >= 3:
+                raise vlib.InfraError("tasks repeatedly failed to start in time although they start on retry: host too loaded")
+        else:
+            STALLS["confirmed"] += 1
+            obs = obs2
     kind, wt = case["kind"], case.get("wt", "thread")
     tasks = tasks_of(case)
     nt = len(tasks)
@@ -483,6 +557,11 @@ def check_case(ck, sc, case, model_out=None):
             + ("/output" if case.get("out") else "") + f"/{case.get('mode', 'all')}",
             sample={"kind": kind, "workers": case["w"], "tasks": nt, "wish": case["perm"], "released": obs["released"],
                     "yielded": obs["items"][:4] if kind != "collect" else obs.get("data", [])[:4]})
+    # configuration chosen by _configure_pool_and_worker_args (defaults are not claimed by the
+    # property: a difference is model drift, not a violation)
+    want_pool = [wt if kind in ("imap", "map") else "thread", None if case.get("wnone") else case["w"]]
+    if obs["pools"][:1] != [want_pool]:
+        ck.disagree(f"pool configuration: code created {obs['pools'][:1]}, expected {want_pool}", case)
     if model_out is None:
         return
     # ---------------- correspondence with the model
@@ -618,7 +697,7 @@ def align_case(ck, sc, c, model_out=None):
                     got.append((cw.file_id(prim_y[0]), prim_y[1], cw.file_id(sec_y[0]), sec_y[1]))
                 else:
                     got.append((None, prim_y, None, sec_y))
-                caches.append(sorted(cw.file_id(k) for k in gen.gi_frame.f_locals["cache"]))
+                caches.append(generator_cache_keys(gen))
         except Exception as e:          # noqa
             exc = "align" if isinstance(e, AlignError) else canon_exc(e)
         finally:
@@ -626,8 +705,7 @@ def align_case(ck, sc, c, model_out=None):
             for cc in (cta, ctb):
                 cc.open_all()
             ctrl.join(30)
-        nwarn = sum(1 for x in wl if issubclass(x.category, RuntimeWarning)
-                    and str(x.message).startswith("[ERROR] Could not read"))
+        nwarn = count_read_warnings(wl)  # noqa: recorded for the sample only
     exp = align_oracle(c)
     viol = lambda what: ck.violation("other", what, c)
     want = exp["out"] if c["ri"] else [(None, x[1], None, x[3]) for x in exp["out"]]
@@ -635,7 +713,10 @@ def align_case(ck, sc, c, model_out=None):
         viol(f"align raised {exc}, expected {exp['exc']}")
     if got != want:
         viol(f"align yielded {got}, expected {want}")
-    if caches != exp["caches"][:len(caches)] and exc == exp["exc"]:
+    cache_seen = all(x is not None for x in caches)
+    if not cache_seen:
+        ck.count("align/cache-not-observable")
+    if cache_seen and caches != exp["caches"][:len(caches)] and exc == exp["exc"]:
         viol(f"align cache at the yields {caches}, expected {exp['caches']}")
     ra, rb_ = collections.Counter(cta.read_log()), collections.Counter(ctb.read_log())
     if any(v > 1 for v in rb_.values()):
@@ -674,7 +755,7 @@ def align_case(ck, sc, c, model_out=None):
         k, v = t.split("=")
         mt.setdefault(int(k), sorted(int(x) for x in v.split(",") if x))
     mc = [mt.get(j + 1) for j in range(len(caches))]
-    if mc != caches:
+    if cache_seen and mc != caches:
         ck.disagree(f"align cache at yields: model {mc} vs code {caches}", c)
     if f[4] != "0":
         ck.disagree(f"align: model leaves {f[4]} items in the secondary loader", c)
@@ -794,6 +875,11 @@ def random_case(rng, big=False):
          "ew": rng.choice([0, 1, 1]), "rb": rb, "fb": fb}
     if kind in ("imap", "map") and rng.random() < 0.2:
         c["out"] = 1                                # map(..., output=<FileSet>)
+        c["outstr"] = rng.randint(0, 1)             # ... or output="path with placeholders"
+    if kind in ("imap", "map") and rng.random() < 0.3:
+        c["ua"] = 1                                 # args=["A"] (one list object), kwargs={"k": 1}
+    if rng.random() < 0.3:
+        c["tag"] = rng.randint(1, 3)                # read_args={"tag": t}
     nt = len(tasks_of(c))
     perm = list(range(nt))
     rng.shuffle(perm)
@@ -816,27 +902,57 @@ def process_case(rng):
     return c
 
 
+def default_cases(rng):
+    """the defaults of FileSet / map: no max_workers, no worker_type, workers=None, output => process"""
+    out = []
+
+    def mk(kind, n, w, wt, **extra):
+        c = {"op": "pool", "kind": kind, "n": n, "w": w, "sel": list(range(n)), "bundle": 0, "mode": "all", "wt": wt,
+             "oc": rng.randint(0, 1), "pi": rng.randint(0, 1), "ri": rng.randint(0, 1), "ew": 0, "rb": "o" * n, "fb": "v" * n}
+        c.update(extra)
+        perm = list(range(len(tasks_of(c))))
+        rng.shuffle(perm)
+        c["perm"] = perm
+        out.append(c)
+
+    for kind in ("imap", "map"):
+        mk(kind, 6, 4, "process", fs={}, now=1, nowt=1)                                   # worker_type -> "process", max_processes -> 4
+        mk(kind, 5, 3, "thread", fs={"worker_type": "thread"}, now=1, nowt=1)             # max_threads -> 3
+        mk(kind, 4, 2, "thread", fs={"worker_type": "thread", "max_threads": 2}, now=1, nowt=1)
+        mk(kind, 4, 2, "process", fs={"max_processes": 2}, now=1, nowt=1)
+        mk(kind, 4, 2, "thread", fs={"max_processes": 2}, now=1)                          # worker_type given, max_threads default is 3
+        out[-1]["w"] = 3
+        mk(kind, 3, 2, "process", fs={"worker_type": "thread"}, nowt=1, out=1)            # output => processes
+        mk(kind, 3, 2, "thread", fs={"worker_type": "thread"}, out=1, outstr=1)           # output given as path string
+    mk("imap", 4, 1, "thread", fs={"worker_type": "thread"}, now=1, nowt=1, wnone=1)      # pool_args max_workers None -> 1
+    mk("icollect", 5, 3, "thread", fs={}, now=1)                                          # icollect/collect: threads, max_threads
+    mk("collect", 5, 2, "thread", fs={"max_threads": 2}, now=1)
+    mk("icollect", 4, 2, "thread", fs={"max_threads": 2}, now=1, tag=2)
+    return out
+
+
 def misc_cases(ck, sc):
-    """argument errors and the empty selection"""
-    from typhon.files.fileset import NoFilesError
+    """argument errors and the empty selection.  The property does not say which exception class
+    is raised for bad arguments or an empty selection, so these probes only record what happens
+    (distribution) and fail when results are *fabricated*: items delivered for no file."""
     fs, ids, infos = sc.fileset("a", [(2 * i, 2 * i + 1) for i in range(3)])
     cw.CTL["a"] = cw.Ctl(ntasks=0, rb="ooo", fb="vvv", name="a", ids=ids)
     probes = [
-        ("files+start", lambda: fs.map(cw.func, files=[infos[0]], start=tmin(0), worker_type="thread"), ValueError),
-        ("func-none", lambda: fs.map(None, worker_type="thread"), ValueError),
-        ("bad-worker-type", lambda: fs.map(cw.func, worker_type="fiber"), ValueError),
-        ("empty-selection-map", lambda: fs.map(cw.func, start=tmin(1000), end=tmin(1001), worker_type="thread"), NoFilesError),
-        ("empty-selection-imap", lambda: list(fs.imap(cw.func, start=tmin(1000), end=tmin(1001), worker_type="thread")), NoFilesError),
+        ("files+start", lambda: fs.map(cw.func, files=[infos[0]], start=tmin(0), worker_type="thread")),
+        ("func-none", lambda: fs.map(None, worker_type="thread")),
+        ("bad-worker-type", lambda: fs.map(cw.func, worker_type="fiber")),
+        ("empty-selection-map", lambda: fs.map(cw.func, start=tmin(1000), end=tmin(1001), worker_type="thread")),
+        ("empty-selection-imap", lambda: list(fs.imap(cw.func, start=tmin(1000), end=tmin(1001), worker_type="thread"))),
     ]
-    for name, fn, want in probes:
-        ck.case(kind="misc/" + name)
+    for name, fn in probes:
         try:
-            fn()
-            got = None
+            got = fn()
+            tag = "returned"
         except Exception as e:          # noqa
-            got = type(e)
-        if got is not want:
-            ck.violation("other", f"{name}: raised {got}, expected {want.__name__}", {"op": "misc", "probe": name})
+            got, tag = None, type(e).__name__
+        ck.case(kind=f"misc/{name}/{tag}")
+        if name.startswith("empty-selection") and got:
+            ck.violation("other", f"{name}: delivered {got!r} although no file was selected", {"op": "misc", "probe": name})
     ck.case(kind="misc/empty-files")
     for nm, fn, want in [("collect", lambda: fs.collect(files=[]), []), ("collect-ri", lambda: fs.collect(files=[], return_info=True), ([], [])),
                          ("icollect", lambda: list(fs.icollect(files=[])), []), ("map", lambda: fs.map(cw.func, files=[], worker_type="thread"), [])]:
@@ -894,8 +1010,16 @@ def exhaustive_cases(rng, nmax, wmax=4):
 
 def explore(ck, sc, use_model, n_random, n_align, n_proc, nmax):
     rng = ck.rng
-    cases = exhaustive_cases(rng, nmax)
-    ck.count("exhaustive-permutation-cases", len(cases))
+    grid = exhaustive_cases(rng, nmax)
+    run_batch(ck, sc, grid, use_model)
+    if not getattr(ck, "_grid_noted", False):
+        ck._grid_noted = True
+        ck.exhaustive = True
+        ck.notes.append(f"exhaustive ONLY for the completion-order grid: all {len(grid)} cases = every permutation of the wished completion "
+                        f"order for n=1..{nmax} tasks x max_workers 1..4 x {{imap,map}} on thread pools (configuration per case rotates over "
+                        f"{len(PRESETS)} presets, failing index drawn at random); every other family (random configurations, bundles, selections, "
+                        "process pools, align) is sampled, not enumerated")
+    cases = default_cases(rng)
     cases += [random_case(rng, big=ck.tier == "thorough") for _ in range(n_random)]
     cases += [gen_align(rng) for _ in range(n_align)]
     cases += [process_case(rng) for _ in range(n_proc)]
@@ -940,8 +1064,6 @@ def main():
         # (a changed anchor multiplies the budgets by 10: cap them at the thorough sizes)
         explore(ck, sc, use_model, min(ck.budget(700, 4000), 5000), min(ck.budget(250, 2000), 2500),
                 min(ck.budget(16, 80), 100), nmax)
-        ck.exhaustive = True
-        ck.notes.append(f"exhaustive: all completion-order permutations for n<={nmax} tasks x max_workers 1..4 x imap/map (thread pools)")
         if ck.broken() and not ck.violations and ck.tier == "quick":
             # failing-input search on the real code with the larger budget (oracle only)
             explore(ck, sc, False, 1500, 400, 20, 5)
